@@ -4,6 +4,7 @@ C14 — property theorems (statements only; helper lemmas live in `Proofs/C14*.l
 import Mahotas.Proofs.C14
 import Mahotas.Proofs.C14Holes
 import Mahotas.Proofs.C14Reg
+import Mahotas.Proofs.StarCheck
 open Mahotas Mahotas.C14
 
 /-- **C14-T1 (local extrema).** For every image of every rank and shape, every pixel `p` inside it and
@@ -84,6 +85,24 @@ theorem C14_close_holes_eq_spec (ref : Img Int) (nb : List (List Int))
     (hwf : ref.data.size = shapeSize ref.shape) (q : List Int) (hq : inside ref.shape q = true) :
     (closeHoles ref nb).getD (ravelI ref.shape q) false = true ↔ ¬ BorderConn ref nb q :=
   closeHoles_spec ref nb hwf q hq
+
+/-- the Boolean checks `starShapedB` / `symNbB` (enumerate every offset between 0 and each member) are
+sound for the hypotheses `StarShaped` and `SymNb` of the theorems above: for a concrete neighbourhood
+they are discharged by `decide`. -/
+theorem C14_star_sym_check (A : Img Int) (nb : List (List Int))
+    (h1 : starShapedB nb = true) (h2 : symNbB A.shape.length nb = true) : StarShaped nb ∧ SymNb A nb :=
+  ⟨starShaped_of_check nb h1, symNb_of_check A nb h2⟩
+
+/-! the neighbourhoods of the property's quantifier pass the checks: crosses and boxes in 1, 2 and 3 D -/
+example : starShapedB (neighbours [3] #[1, 1, 1]) = true ∧ symNbB 1 (neighbours [3] #[1, 1, 1]) = true := by decide
+example : starShapedB (neighbours [3, 3] #[0, 1, 0, 1, 1, 1, 0, 1, 0]) = true ∧
+    symNbB 2 (neighbours [3, 3] #[0, 1, 0, 1, 1, 1, 0, 1, 0]) = true := by decide
+example : starShapedB (neighbours [3, 3] #[1, 1, 1, 1, 1, 1, 1, 1, 1]) = true ∧
+    symNbB 2 (neighbours [3, 3] #[1, 1, 1, 1, 1, 1, 1, 1, 1]) = true := by decide
+example : starShapedB (neighbours [3, 3, 3] (C01.crossElem 3 1)) = true ∧
+    symNbB 3 (neighbours [3, 3, 3] (C01.crossElem 3 1)) = true := by decide
+example : starShapedB (neighbours [3, 3, 3] (Array.replicate 27 1)) = true ∧
+    symNbB 3 (neighbours [3, 3, 3] (Array.replicate 27 1)) = true := by decide
 
 /-! non-vacuity: the 2-D cross (centre removed) is star-shaped, and a 2×3 image with a plateau
     touching the border and a tie between two plateaus meets every hypothesis of `C14_locmax_eq_spec`;
